@@ -43,12 +43,20 @@ func c17Sources(m mapping.IndexMapping, window int) []c17Source {
 			}
 		}
 	}
+	out = append(out, c17Source{"zeros only", []Entry{{0, 3.5}}}, c17Source{"zeros only, sub-minimum values", []Entry{{0, 1}, {m.MinIndexableValue() / 2, 2}}}, c17Source{"empty", nil})
 	dense := c17Source{name: "thirty consecutive bins"}
 	for d := 0; d < 30; d++ {
 		dense.ent = append(dense.ent, Entry{m.Value(i0 + d), float64(1 + d%3)})
 	}
 	out = append(out, dense)
 	return out
+}
+
+func firstValue(ent []Entry) float64 {
+	if len(ent) == 0 {
+		return 0
+	}
+	return ent[0].V
 }
 
 type binW struct {
@@ -165,7 +173,7 @@ func c17Shard(src, dst MapSpec, shift int, tier string) mc.Shard {
 							}
 							distinct[fmt.Sprintf("%v|%v|%d|%v", s.name, scale, len(outBins), sk)] = struct{}{}
 							// overlap: single-bin sources send weight only to overlapping target bins
-							if len(s.ent) == 1 {
+							if z, _ := zeroClass(m1, firstValue(s.ent)); len(s.ent) == 1 && !z {
 								v := math.Abs(s.ent[0].V)
 								i := m1.Index(v)
 								inLo, inHi := m1.LowerBound(i)*scale, m1.LowerBound(i+1)*scale
@@ -187,6 +195,12 @@ func c17Shard(src, dst MapSpec, shift int, tier string) mc.Shard {
 								}
 							}
 							cnt := q.GetCount()
+							if cnt == 0 {
+								if W != 0 {
+									fail("C17.weight-conserved", where+"the result is empty")
+								}
+								continue
+							}
 							for _, p := range []float64{0, 0.1, 0.25, 0.5, 0.75, 0.9, 1} {
 								y, err := q.GetValueAtQuantile(p)
 								if err != nil {
@@ -226,7 +240,7 @@ func c17Shard(src, dst MapSpec, shift int, tier string) mc.Shard {
 									break
 								}
 							}
-							if exact {
+							if exact && W > 0 {
 								es, eo := srcSl.E, out.E
 								if eo.GetCount() != es.GetCount() {
 									fail("C17.statistics-rescaled", where+"exact count %v became %v", es.GetCount(), eo.GetCount())
@@ -241,6 +255,12 @@ func c17Shard(src, dst MapSpec, shift int, tier string) mc.Shard {
 								if d := math.Abs(eo.GetSum() - es.GetSum()*scale); d > 4*math.Ldexp(1, -52)*math.Abs(es.GetSum()*scale) {
 									fail("C17.statistics-rescaled", where+"exact sum %v became %v", es.GetSum(), eo.GetSum())
 								}
+							}
+							// the result is a sketch of its own: mutating it leaves the source untouched
+							out.Q().Add(3 * scale)
+							out.Q().AddWithCount(0, 2)
+							if after := ObserveSketch(srcSl.Q()); after != before {
+								fail("C17.source-untouched", where+"adding to the result changed the source\n  before: %s\n  after:  %s", before, after)
 							}
 						}
 					}
